@@ -180,7 +180,7 @@ def explore(item):
     rep = Report()
     objspec = OBJECTS[oi]
     raw = raw_stream(word, "+", A.regular_gaps("reg", len(word), 120), "T2")
-    depth = 5 if tier == "quick" else 7
+    depth = 5 if tier == "quick" else 10
     try:
         obj, pos = build(objspec, raw, state)
     except Exception as e:
@@ -446,7 +446,7 @@ def explore_delivery(item):
         if key in seen:
             continue
         seen.add(key)
-        rep.add("states", key)
+        rep.inc("states")
         bad = delivery_bad(hx, hkw, raw, pos)
         if bad is not None:
             rep.violation(f"C19|timeframe-not-fed|{di}|{'after-remove' if any(o[0] == 'rm' for o in path) else 'plain'}",
@@ -560,6 +560,8 @@ def main(prop, tier):
     t0 = time.time()
     var = A.variant()
     word = WORDS[var["rot"] % len(WORDS)]
+    if tier != "quick":  # a longer stream, so that the deeper search is not cut short by running out of candles
+        word = (word + word[::-1])[:14]
     items = [(tier, oi, st, word) for oi in range(len(OBJECTS)) for st in ("empty", "preloaded", "calculated")]
     reps = pmap(explore, items)
     reps += pmap(explore_enc, [(tier, oi, word, fine) for oi in range(len(OBJECTS)) for fine in (False, True)])
@@ -572,7 +574,7 @@ def main(prop, tier):
             "equal to the all-Candle run and caller containers unchanged, on the integer grid and on a six-decimal / fractional-volume scale; delivery: breadth-first search over {append 1|2, remove_indicator, "
             "add it back} on Hexitals with several member timeframes over a stream with gaps - in every reachable state every timeframe the Hexital "
             "lists holds exactly the reference resampling of everything appended so far; non-trivial = distinct reachable deep states + distinct agreeing encoding plans")
-    return finish(prop, tier, rep, t0, rule=rule, bounds={"depth": 5 if tier == "quick" else 7, "objects": OBJECTS, "stream": word, "delivery": DELIVERY, "delivery_gaps": DELIVERY_GAPS},
+    return finish(prop, tier, rep, t0, rule=rule, bounds={"depth": 5 if tier == "quick" else 10, "delivery_depth": 5 if tier == "quick" else 7, "objects": OBJECTS, "stream": word, "delivery": DELIVERY, "delivery_gaps": DELIVERY_GAPS},
                   replay_confirm=replay,
                   assumptions=["an accessor that raises is not a violation if the observable state is unchanged and the object stays usable",
                                "hidden state (caches) is not compared directly, only through what later calls return (2-step continuation)",
